@@ -72,6 +72,7 @@ class HidDevice:
         self.fd = None
         self.queue = []
         self._last_deliver = 0.0
+        self._piles = {}
         self.gone_mode = None         # None | "eof" | "oserror"
         self.open_failures_left = 0
         self.opens = 0
@@ -222,13 +223,25 @@ class HidDevice:
             if s0 <= at_us < s0 + dur:
                 at_us, stalled = s0 + dur, True
         if stalled:
-            # a burst: everything that piled up becomes readable at the same instant
+            # a burst: everything that piled up becomes readable at the same instant, in the
+            # order the gateway produced it (timers of equal time are not FIFO in asyncio, so
+            # one timer releases the whole pile)
             t = max(at_us * US, self._last_deliver, self.loop.time())
             self._bump("host-stall")
-        else:
-            t = max(at_us * US, self._last_deliver + US, self.loop.time())
+            self._last_deliver = t
+            pile = self._piles.get(t)
+            if pile is None:
+                pile = self._piles[t] = []
+                self.loop.at(t, self._release_pile, t)
+            pile.append((self.generation, data))
+            return
+        t = max(at_us * US, self._last_deliver + US, self.loop.time())
         self._last_deliver = t
         self.loop.at(t, self._arrive, self.generation, data)
+
+    def _release_pile(self, t):
+        for gen, data in self._piles.pop(t, ()):
+            self._arrive(gen, data)
 
     def _arrive(self, gen, data):
         if gen != self.generation or self.fd is None or not self.present:
